@@ -189,6 +189,10 @@ func runC10(r *Run, p *Prog) {
 				hf = append(hf, f)
 			}
 		}
+		for _, u := range sharedPackageState(p, hf) {
+			r.Ob("S4", shortName(u.Fn), "per-connection code uses package-level state "+u.G.Name(), u.At.Pos(), false,
+				"a misbehaving client can influence other connections through a package-level pool/cache/free list")
+		}
 		m := BuildServeModel(p, ro)
 		for _, a := range fieldAccesses(hf, ro.ServiceT) {
 			if a.Write && !isNamed(fieldTypeOf(ro.ServiceT, a.Field), "sync", "Mutex") && a.Field != m.Counter {
